@@ -78,8 +78,11 @@ func genC09(x *Ctx) *c09Scen {
 	sc.AddRoute = tp.Chance(250)
 	sc.Verbs = tp.Chance(300)
 	sc.DelRoute = sc.AddRoute && tp.Bool()
-	if sc.AddRoute && tp.Chance(60) {
-		sc.Noise = []int{30, 140, 300, 560}[tp.G(4)]
+	if sc.AddRoute && tp.Chance(80) {
+		sc.Noise = []int{12, 60, 140, 300, 600}[tp.G(5)]
+		if tp.Chance(600) {
+			sc.Methods = nil // computed per request
+		}
 	}
 	maxReq := 4
 	if x.Thorough() {
@@ -120,6 +123,14 @@ func genC09(x *Ctx) *c09Scen {
 		})
 		sc.Clients = append(sc.Clients, rs)
 	})
+	if sc.Noise > 0 {
+		// the last client waits for the admin task to finish, then asks about the URL that was changed
+		last := len(sc.Clients) - 1
+		for _, m := range []string{"PUT", "POST"} {
+			id++
+			sc.Clients[last] = append(sc.Clients[last], &c09Req{ID: id, Method: "OPTIONS", Path: "/a/x", Origin: "http://good.example", ACRM: m})
+		}
+	}
 	return sc
 }
 
@@ -280,9 +291,14 @@ func runC09(x *Ctx) {
 	restful.EnableTracing(sc.Trace)
 	w := c09Build(sc, byID, false)
 	s.MaxSteps += 14 * sc.Noise
+	var adminDone sim.Flags
 	for ci, cl := range sc.Clients {
 		cl := cl
+		ci := ci
 		s.Go(fmt.Sprintf("client%d", ci), func(t *sim.Task) {
+			if sc.Noise > 0 && ci == len(sc.Clients)-1 {
+				t.WaitUntil(sim.SiteRendezvous, func() bool { return adminDone.Get(1) })
+			}
 			for _, r := range cl {
 				t.Req = r.ID
 				t.Y(sim.SiteStart)
@@ -322,6 +338,7 @@ func runC09(x *Ctx) {
 			if sc.Noise > 0 {
 				noise(99, "/a/y/after")
 			}
+			adminDone.Set(1)
 			t.Y(sim.SiteAdminPost)
 		})
 	}
